@@ -4,8 +4,9 @@
  * IPV6_FROM_ADDRESS: the input is the Standard's serialization of an arbitrary address (all 2^128): parse o serialize = id. */
 void harness(void) {
 #ifdef IPV6_FROM_ADDRESS
-  uint16_t a0[8];
-  for (int i = 0; i < 8; i++) { uint16_t x; a0[i] = x; }
+  struct { uint16_t a[8]; } A0;
+  ND_FILL_U16(A0, A0.a, 8);
+  uint16_t *a0 = A0.a;
   char text[48]; sv_t input; input.n = ref_ipv6_serialize(a0, text); input.p = text;
 #else
   HAVOC_BUFS;
